@@ -118,7 +118,7 @@ def check_c18(run):
         for nest in (["plain", "if", "for"] if not quick else [rng.choice(["plain", "if", "for"])]):
             sid += 1
             sessions.append({"id": sid, "kind": "conc", "target": "engine", "gated": True,
-                             "blocks": r["blocks"], "nest": nest})
+                             "blocks": r["blocks"], "nest": nest, "pre": sid % 3 == 0})
     # seeded random larger bodies
     nrand = 150 if quick else 3000
     kinds = ["asgL", "asgI", "func", "meth", "three", "methL", "asgML"]
@@ -135,7 +135,7 @@ def check_c18(run):
             blocks.append(bl)
         sid += 1
         sessions.append({"id": sid, "kind": "conc", "target": "engine", "gated": rng.random() < 0.9,
-                         "blocks": blocks, "nest": rng.choice(["plain", "if", "for"])})
+                         "blocks": blocks, "nest": rng.choice(["plain", "if", "for"]), "pre": rng.random() < 0.4})
     # wide blocks: many more children than cores / any fixed worker count, from none to all of them failing
     for i in range(40 if quick else 600):
         n = rng.randint(9, 24)
@@ -145,7 +145,7 @@ def check_c18(run):
                "fails": c < kfirst or rng.random() < pf, "val": 100 + c + 1} for c in range(n)]
         sid += 1
         sessions.append({"id": sid, "kind": "conc", "target": "engine", "gated": rng.random() < 0.7,
-                         "blocks": [bl], "nest": rng.choice(["plain", "if", "for"])})
+                         "blocks": [bl], "nest": rng.choice(["plain", "if", "for"]), "pre": rng.random() < 0.4})
     # churn: many ungated bodies in which children that look locals up (methods of an object held in a local) run beside
     # children that assign locals, at full speed
     for i in range(300 if quick else 5000):
@@ -158,7 +158,7 @@ def check_c18(run):
                 bl.append({"id": "c%d" % n, "kind": rng.choice(["asgL", "asgML", "methL", "methL", "func"]), "fails": False, "val": 100 * (b + 1) + n})
             blocks.append(bl)
         sid += 1
-        sessions.append({"id": sid, "kind": "conc", "target": "engine", "gated": False, "blocks": blocks, "nest": rng.choice(["plain", "if", "for"])})
+        sessions.append({"id": sid, "kind": "conc", "target": "engine", "gated": False, "blocks": blocks, "nest": rng.choice(["plain", "if", "for"]), "pre": rng.random() < 0.4})
     # the same body evaluated by 2-3 pool requests at the same moment (the instances share the compiled rule); a child
     # may fail in one request only, so that a failure and a success of the same statement overlap
     for i in range(120 if quick else 2500):
@@ -173,14 +173,14 @@ def check_c18(run):
                            "val": 100 * (b + 1) + n})
             blocks.append(bl)
         sessions.append({"id": 9000000 + i, "kind": "conc", "target": "pool", "gated": rng.random() < 0.9, "nreq": rng.randint(2, 3),
-                         "blocks": blocks, "nest": rng.choice(["plain", "if", "for"])})
+                         "blocks": blocks, "nest": rng.choice(["plain", "if", "for"]), "pre": rng.random() < 0.4})
     ns = _run(run, sessions, "conc", "ConcTrace.tla", "ConcTrace.cfg", conc_describe)
     if getattr(run, "collect", None) is not None:
         return 0
     if not run.violations:
         conc_self_test(run)
     run.cov["evaluations"] = ns
-    run.cov["distinct_nontrivial"] = len({json.dumps([s["blocks"], s["nest"]], sort_keys=True) for s in sessions
+    run.cov["distinct_nontrivial"] = len({json.dumps([s["blocks"], s["nest"], s.get("pre", False)], sort_keys=True) for s in sessions
                                           if any(s["blocks"])})
     run.assumptions += ["children are injected functions / methods that log start, block on a gate and log end",
                         "event order = order of observer calls under one mutex"]
